@@ -136,142 +136,363 @@ def rule_format(ctx, res, rule_id='R-C05-format'):
     n = len(table)
     enc = model.func(CZ + ':compress_code')
     dec = model.func(CZ + ':decompress_code')
-    # encoder: literal index loop starts at 1
-    rng_ok = False
-    for lp in walk_own(enc.node):
-        if isinstance(lp, ast.For) and isinstance(lp.iter, ast.Call) and \
-                ast.unparse(lp.iter.func) == 'range':
-            a = [ev.eval_expr(mod, x) for x in lp.iter.args]
-            body = ast.unparse(lp.body[0]).replace(' ', '') if lp.body else ''
-            if 'literal_index[' in body:
-                rng_ok = a == [ref.C_TABLE_FIRST_INDEX, n]
-    res.check(rng_ok, rule_id, enc.qual,
-              'literal index covers table entries 1..{}'.format(n - 1), '',
-              'the literal index loop does not run over 1..len(table)-1 '
-              '(index 0 is the escape)', enc.loc)
-    # encoder block bytes: two appends in the block branch
-    blk = None
-    for n_ in walk_own(enc.node):
-        if isinstance(n_, ast.If) and 'block_len' in ast.unparse(n_.test):
-            blk = n_
-    if blk is None:
-        res.vanished(rule_id, enc.qual, 'block branch',
-                     'no test on block_len')
+    _format_encoder(ctx, res, rule_id, enc, mod, n)
+    _format_decoder(ctx, res, rule_id, dec, mod, n)
+
+
+def _main_while(f):
+    loops = [x for x in f.node.body if isinstance(x, ast.While)]
+    return loops[0] if len(loops) == 1 else None
+
+
+def _loop_paths(ctx, f, lp, no_inline=()):
+    from ..absint.symbody import SymBody
+    sym = SymBody(ctx, f, max_paths=2000, no_inline=no_inline)
+    pre = sym.run(f.node.body[:f.node.body.index(lp)])
+    envs = [p.env for p in pre if p.end == 'fall']
+    carried = {x.id for x in ast.walk(lp) if isinstance(x, ast.Name) and
+               isinstance(x.ctx, ast.Store)}
+    env = {}
+    if envs:
+        env = {k: v for k, v in envs[0].items() if k not in carried and all(
+            k in e and ast.unparse(e[k]) == ast.unparse(v) for e in envs)}
+    return sym, env, sym.run(lp.body, env), pre
+
+
+def _appends(p, exclude=()):
+    out = []
+    for e in p.events:
+        if e[0] == 'call' and isinstance(e[1], ast.Call) and \
+                isinstance(e[1].func, ast.Attribute) and \
+                e[1].func.attr == 'append' and len(e[1].args) == 1:
+            out.append((ast.unparse(e[1].func.value), e[1].args[0]))
+    return out
+
+
+def _rename(e, mapping):
+    """copy of e with sub-expressions (by text) replaced by names"""
+    from ..astutil import clone
+
+    class T(ast.NodeTransformer):
+        def generic_visit(self, n):
+            if isinstance(n, ast.expr):
+                t = ast.unparse(n)
+                if t in mapping:
+                    return ast.Name(id=mapping[t], ctx=ast.Load())
+            return super().generic_visit(n)
+    return T().visit(clone(e))
+
+
+def _format_encoder(ctx, res, rule_id, enc, mod, n):
+    from .. import norm as N
+    ev = ctx.consts
+    u = ast.unparse
+    # ---- literal index: TABLE[i] -> i for i in 1 .. n-1 -----------------------
+    idx_ok = None
+    for (g, lp) in N.region_nodes(ctx, enc):
+        if not isinstance(lp, ast.For):
+            continue
+        body = ' '.join(u(x) for x in lp.body).replace(' ', '')
+        it = u(lp.iter).replace(' ', '')
+        if '[COMPRESSED_LUA_CHAR_TABLE[' in body and it.startswith('range('):
+            a = [ev.eval_expr(g.module, x) for x in lp.iter.args]
+            tgt = lp.target.id if isinstance(lp.target, ast.Name) else None
+            st = [x for x in lp.body if isinstance(x, ast.Assign)]
+            idx_ok = a == [ref.C_TABLE_FIRST_INDEX, n] and len(st) == 1 and \
+                tgt is not None and u(st[0].value) == tgt and \
+                u(st[0].targets[0]).endswith(
+                    '[COMPRESSED_LUA_CHAR_TABLE[{}]]'.format(tgt))
+        elif it == 'enumerate(COMPRESSED_LUA_CHAR_TABLE)' and \
+                isinstance(lp.target, ast.Tuple) and len(lp.target.elts) == 2:
+            i_, c_ = [x.id for x in lp.target.elts]
+            from ..absint.symbody import SymBody
+            ok = True
+            stored = False
+            for p in SymBody(ctx, g).run(lp.body, {}):
+                skip0 = any(
+                    (u(t) == '{} == 0'.format(i_) and v) or
+                    (u(t) == '{} != 0'.format(i_) and not v) or
+                    (u(t) == i_ and not v) or
+                    (u(t) == '{} < 1'.format(i_) and v)
+                    for (t, v) in p.conds)
+                sts = [e for e in p.events if e[0] == 'store']
+                if skip0:
+                    ok = ok and not sts
+                else:
+                    ok = ok and len(sts) == 1 and u(sts[0][2]) == c_ and \
+                        u(sts[0][3]) == i_
+                    stored = True
+                    # index 0 must have been excluded on this path
+                    if not any(i_ in u(t) for (t, _v) in p.conds):
+                        ok = False
+            idx_ok = ok and stored
+    if idx_ok is None:
+        res.undecided(rule_id, enc.qual,
+                      'literal index covers table entries 1..{}'.format(n - 1),
+                      'construction of the literal index not recognised',
+                      enc.loc)
+    else:
+        res.check(idx_ok, rule_id, enc.qual,
+                  'literal index covers table entries 1..{}'.format(n - 1),
+                  '', 'the literal index does not map TABLE[i] to i for '
+                  'exactly i = 1..len(table)-1 (index 0 is the escape)',
+                  enc.loc)
+    # ---- the main loop, path by path -------------------------------------------
+    lp = _main_while(enc)
+    if lp is None:
+        res.vanished(rule_id, enc.qual, 'encoder loop', 'main loop not found')
         return
-    apps = [c.args[0] for s in blk.body for c in walk_own(s)
-            if isinstance(c, ast.Call) and isinstance(c.func, ast.Attribute)
-            and c.func.attr == 'append' and c.args]
-    if len(apps) != 2:
+    sym, env, paths, _pre = _loop_paths(ctx, enc, lp,
+                                        no_inline={'_find_repeatable_block'})
+    def is_block(p):
+        for (t, v) in p.conds:
+            if isinstance(t, ast.Compare) and len(t.ops) == 1 and \
+                    isinstance(t.comparators[0], ast.Constant):
+                c, op = t.comparators[0].value, t.ops[0]
+                if c == 3 and isinstance(op, ast.GtE):
+                    return v
+                if c == 3 and isinstance(op, ast.Lt):
+                    return not v
+                if c == 2 and isinstance(op, ast.Gt):
+                    return v
+                if c == 2 and isinstance(op, ast.LtE):
+                    return not v
+        return None
+    blocks, lits, escs, other = [], [], [], []
+    for p in paths:
+        apps = _appends(p)
+        blk = is_block(p)
+        if blk is None:
+            other.append(p)
+        elif blk and len(apps) == 2:
+            blocks.append((p, apps))
+        elif blk:
+            other.append(p)
+        elif len(apps) == 2:
+            escs.append((p, apps))
+        elif len(apps) == 1:
+            lits.append((p, apps))
+        else:
+            other.append(p)
+    if not blocks or other:
         res.undecided(rule_id, enc.qual, 'block bytes',
-                      'expected two appended bytes')
+                      'encoder paths not recognised ({} block, {} literal, '
+                      '{} escape, {} other)'.format(
+                          len(blocks), len(lits), len(escs), len(other)),
+                      enc.module.loc(lp))
         return
-    b1, b2 = norm(ev, mod, apps[0]), norm(ev, mod, apps[1])
-    off = Lin({('sym', 'block_offset'): 1}, 0).key()
-    ln = ('sym', 'block_len')
-    e_div = [k for k in b1.terms if k[0] == 'div' and k[1] == off]
-    e_mod = [k for k in b2.terms if k[0] == 'mod' and k[1] == off]
     R = ref.C_OFFSET_RADIX
-    enc_ok = (len(e_div) == 1 and e_div[0][2] == R and
-              b1.terms == {e_div[0]: 1} and b1.const == ref.C_BLOCK_FIRST and
-              len(e_mod) == 1 and e_mod[0][2] == R and
-              b2.terms == {e_mod[0]: 1, ln: R} and
-              b2.const == -ref.C_LENGTH_BIAS * R and
-              ref.C_BLOCK_FIRST == n)
-    res.check(enc_ok, rule_id, enc.qual,
-              'encoder: b1 = offset // 16 + 0x3c, b2 = offset % 16 + '
-              '(length - 2) * 16', 'b1 = {} ; b2 = {}'.format(b1, b2),
-              'encoder block bytes are b1 = {} ; b2 = {} (format: radix {}, '
-              'first block byte 0x{:x}, length bias {})'.format(
-                  b1, b2, R, ref.C_BLOCK_FIRST, ref.C_LENGTH_BIAS),
-              enc.module.loc(blk))
-    # literal escape
-    esc_ok = False
-    for s in blk.orelse:
-        for n_ in walk_own(s):
-            if isinstance(n_, ast.If) and '== 0' in ast.unparse(n_.test) and \
-                    'literal_index' in ast.unparse(n_.test):
-                esc_ok = any(isinstance(c, ast.Call) and
-                             isinstance(c.func, ast.Attribute) and
-                             c.func.attr == 'append' and
-                             'in_p[pos]' in ast.unparse(c)
-                             for x in n_.body for c in walk_own(x))
+    for (p, apps) in blocks:
+        # the length is the value tested against the minimum block length
+        len_txt = None
+        for (t, v) in p.conds:
+            if isinstance(t, ast.Compare) and len(t.ops) == 1 and \
+                    isinstance(t.comparators[0], ast.Constant) and \
+                    t.comparators[0].value in (2, 3):
+                len_txt = u(t.left)
+        pos_var = [k for k, v in p.env.items() if isinstance(v, ast.BinOp)
+                   and isinstance(v.op, ast.Add) and u(v.left) == k]
+        if len_txt is None:
+            res.undecided(rule_id, enc.qual, 'block bytes',
+                          'minimum-length test of the block branch not found',
+                          enc.module.loc(lp))
+            return
+        mapping = {len_txt: 'block_len'}
+        # the offset: the other element of the search result
+        off_txt = None
+        for x in ast.walk(apps[0][1]):
+            if isinstance(x, ast.BinOp) and isinstance(
+                    x.op, (ast.FloorDiv, ast.Mod)):
+                off_txt = u(x.left)
+        if off_txt:
+            mapping[off_txt] = 'block_offset'
+        b1 = norm(ev, mod, _rename(apps[0][1], mapping))
+        b2 = norm(ev, mod, _rename(apps[1][1], mapping))
+        off = Lin({('sym', 'block_offset'): 1}, 0).key()
+        ln = ('sym', 'block_len')
+        e_div = [k for k in b1.terms if k[0] == 'div' and k[1] == off]
+        e_mod = [k for k in b2.terms if k[0] == 'mod' and k[1] == off]
+        enc_ok = (len(e_div) == 1 and e_div[0][2] == R and
+                  b1.terms == {e_div[0]: 1} and
+                  b1.const == ref.C_BLOCK_FIRST and
+                  len(e_mod) == 1 and e_mod[0][2] == R and
+                  b2.terms == {e_mod[0]: 1, ln: R} and
+                  b2.const == -ref.C_LENGTH_BIAS * R and
+                  ref.C_BLOCK_FIRST == n)
+        # the position advances by the block length
+        adv_ok = any(u(v) == '{} + {}'.format(k, len_txt)
+                     for k, v in p.env.items())
+        res.check(enc_ok and adv_ok, rule_id, enc.qual,
+                  'encoder: b1 = offset // 16 + 0x3c, b2 = offset % 16 + '
+                  '(length - 2) * 16', 'b1 = {} ; b2 = {}'.format(b1, b2),
+                  'encoder block bytes are b1 = {} ; b2 = {} (format: radix '
+                  '{}, first block byte 0x{:x}, length bias {}); position '
+                  'advances by the block length: {}'.format(
+                      b1, b2, R, ref.C_BLOCK_FIRST, ref.C_LENGTH_BIAS,
+                      adv_ok), enc.module.loc(lp))
+        break
+    # literal escape: 0x00 then the byte itself; table literal: its index
+    # escape path: first byte is 0x00 -- written as the constant, or as the
+    # looked-up index on a path that knows the index is 0 -- then the byte
+    esc_ok = bool(escs) and bool(lits)
+    for (p, apps) in escs:
+        first, second = apps[0][1], apps[1][1]
+        zero = (isinstance(first, ast.Constant) and
+                first.value == ref.C_LITERAL_ESCAPE) or any(
+            (u(t) == u(first) + ' == 0' and v) or
+            (u(t) == u(first) + ' != 0' and not v) or
+            (u(t) == u(first) and not v) for (t, v) in p.conds)
+        if not zero or not u(second).startswith('in_p['):
+            esc_ok = False
+    for (p, apps) in lits:
+        t = u(apps[0][1])
+        if 'in_p[' not in t or isinstance(apps[0][1], ast.Constant):
+            esc_ok = False
     res.check(esc_ok and ref.C_LITERAL_ESCAPE == 0, rule_id, enc.qual,
               'encoder: bytes outside the table are written as 0x00, byte',
               '', 'literal escape changed', enc.loc)
-    # decoder
-    chain = None
-    for n_ in walk_own(dec.node):
-        if isinstance(n_, ast.While):
-            for s in n_.body:
-                if isinstance(s, ast.If):
-                    chain = s
-    if chain is None:
+
+
+def _format_decoder(ctx, res, rule_id, dec, mod, n):
+    from ..absint import arith
+    ev = ctx.consts
+    u = ast.unparse
+    R = ref.C_OFFSET_RADIX
+    lp = _main_while(dec)
+    if lp is None:
         res.vanished(rule_id, dec.qual, 'decoder dispatch', 'not found')
         return
-    t1 = chain.test
-    c1 = ev.eval_expr(mod, t1.comparators[0]) if isinstance(
-        t1, ast.Compare) else None
-    nxt = chain.orelse[0] if chain.orelse and isinstance(
-        chain.orelse[0], ast.If) else None
-    c2 = ev.eval_expr(mod, nxt.test.comparators[0]) if nxt is not None and \
-        isinstance(nxt.test, ast.Compare) else None
-    part_ok = (isinstance(t1, ast.Compare) and isinstance(t1.ops[0], ast.Eq)
-               and c1 == ref.C_LITERAL_ESCAPE and nxt is not None and
-               isinstance(nxt.test.ops[0], ast.LtE) and
-               c2 == ref.C_BLOCK_FIRST - 1 and c2 == n - 1 and
-               bool(nxt.orelse))
-    res.check(part_ok, rule_id, dec.qual,
-              'decoder branches: ==0x00 escape, <=0x3b table, else block',
-              'partition of 0..255 with 0x3b == len(table) - 1',
-              'decoder branch constants {} / {} do not partition the byte '
-              'values at the table size {}'.format(c1, c2, n),
-              dec.module.loc(chain))
-    tab_ok = nxt is not None and any(
-        'COMPRESSED_LUA_CHAR_TABLE[codedata[in_i]]' in ast.unparse(s).replace(
-            ' ', '') for s in nxt.body)
+    sym, env, paths, pre = _loop_paths(ctx, dec, lp)
+    in_i = None
+    for k in ('in_i',):
+        in_i = k
+    cur = 'codedata[{}]'.format(in_i)
+    # which path does each byte value take?
+    kinds = {}
+    for p in paths:
+        inner = [e for e in p.events if e[0] == 'loop']
+        stores = [e for e in p.events if e[0] == 'store']
+        if inner:
+            k = 'block'
+        elif stores and 'COMPRESSED_LUA_CHAR_TABLE[' in u(stores[0][3]):
+            k = 'table'
+        elif stores and u(stores[0][3]) == 'codedata[{} + 1]'.format(in_i):
+            k = 'escape'
+        else:
+            k = 'other:' + ' '.join(e[0] for e in p.events)[:30]
+        kinds.setdefault(k, []).append(p)
+    bad_bytes = []
+    undecidable = False
+    for b in range(256):
+        taken = set()
+        for k, ps in kinds.items():
+            for p in ps:
+                ok = True
+                for (t, v) in p.conds:
+                    tt = u(t)
+                    if cur not in tt:
+                        continue
+                    try:
+                        r = arith.ev(_rename(t, {cur: 'B'}), {'B': b})
+                    except AnalysisError:
+                        undecidable = True
+                        r = v
+                    if bool(r) != v:
+                        ok = False
+                if ok:
+                    taken.add(k)
+        want = 'escape' if b == ref.C_LITERAL_ESCAPE else (
+            'table' if b < n else 'block')
+        if taken != {want}:
+            bad_bytes.append((b, sorted(taken), want))
+    if undecidable:
+        res.undecided(rule_id, dec.qual, 'decoder dispatch',
+                      'a test on the current byte is outside the '
+                      'arithmetic model', dec.module.loc(lp))
+    else:
+        res.check(not bad_bytes, rule_id, dec.qual,
+                  'decoder branches: ==0x00 escape, <=0x3b table, else block',
+                  'partition of 0..255 with 0x3b == len(table) - 1 (every '
+                  'byte value evaluated against the branch tests)',
+                  'byte 0x{:02x} is decoded as {} instead of {}: the branch '
+                  'tests do not partition the byte values at the table size '
+                  '{}'.format(*(bad_bytes[0] if bad_bytes else (0, '', '')),
+                              n), dec.module.loc(lp))
+    tab_ok = all(any(e[0] == 'store' and u(e[3]) ==
+                     'COMPRESSED_LUA_CHAR_TABLE[{}]'.format(cur)
+                     for e in p.events) for p in kinds.get('table', [])) and \
+        bool(kinds.get('table'))
     res.check(tab_ok, rule_id, dec.qual,
               'decoder: table literal = TABLE[byte]', '',
               'table literal decoding changed', dec.loc)
+    # block arithmetic: from the copy loop's trip count and source index
     offs = lens = None
-    if nxt is not None:
-        for s in nxt.orelse:
-            for a in walk_own(s):
-                if isinstance(a, ast.Assign) and \
-                        isinstance(a.targets[0], ast.Name):
-                    if a.targets[0].id == 'offset':
-                        offs = norm(ev, mod, a.value)
-                    elif a.targets[0].id == 'length':
-                        lens = norm(ev, mod, a.value)
+    for p in kinds.get('block', []):
+        lpev = [e for e in p.events if e[0] == 'loop'][0]
+        inner, ienv = lpev[1], lpev[2]
+        mapping = {cur: 'b1', 'codedata[{} + 1]'.format(in_i): 'b2'}
+        # length: trip count of the copy loop
+        if isinstance(inner, ast.For) and isinstance(inner.iter, ast.Call) \
+                and u(inner.iter.func) == 'range' and \
+                len(inner.iter.args) == 1:
+            lens = norm(ev, mod, _rename(sym.S(inner.iter.args[0], ienv),
+                                         mapping))
+        elif isinstance(inner, ast.While):
+            # while out_i < min(out_i0 + length, code_length)
+            t = sym.S(inner.test, {k: v for k, v in ienv.items()
+                                   if k != 'out_i'})
+            for x in ast.walk(t):
+                if isinstance(x, ast.BinOp) and isinstance(x.op, ast.Add) \
+                        and u(x.left) == 'out_i':
+                    lens = norm(ev, mod, _rename(x.right, mapping))
+        # offset: out[out_i] = out[out_i - offset]
+        for q in sym.run(inner.body, {k: v for k, v in ienv.items()
+                                      if k != 'out_i'}):
+            for e in q.events:
+                if e[0] == 'store' and isinstance(e[3], ast.Subscript) and \
+                        isinstance(e[3].slice, ast.BinOp) and \
+                        isinstance(e[3].slice.op, ast.Sub) and \
+                        u(e[3].slice.left) == u(e[2]):
+                    offs = norm(ev, mod, _rename(e[3].slice.right, mapping))
+        break
     dec_ok = False
     if offs is not None and lens is not None:
-        loads = [k for k in offs.terms if k[0] == 'load']
+        b1s = ('sym', 'b1')
         ands = [k for k in offs.terms if k[0] == 'and']
         shrs = [k for k in lens.terms if k[0] == 'shr']
-        dec_ok = (len(loads) == 1 and offs.terms.get(loads[0]) == R and
-                  len(ands) == 1 and ands[0][2] == R - 1 and
-                  offs.terms.get(ands[0]) == 1 and
+        b2k = Lin({('sym', 'b2'): 1}, 0).key()
+        dec_ok = (offs.terms.get(b1s) == R and len(ands) == 1 and
+                  ands[0][2] == R - 1 and ands[0][1] == b2k and
+                  offs.terms.get(ands[0]) == 1 and len(offs.terms) == 2 and
                   offs.const == -ref.C_BLOCK_FIRST * R and
                   len(shrs) == 1 and (1 << shrs[0][2]) == R and
-                  lens.terms == {shrs[0]: 1} and
-                  lens.const == ref.C_LENGTH_BIAS and
-                  ands[0][1] == shrs[0][1])
-    res.check(dec_ok, rule_id, dec.qual,
-              'decoder: offset = (b1 - 0x3c) * 16 + (b2 & 15), length = '
-              '(b2 >> 4) + 2', 'offset = {} ; length = {}'.format(offs, lens),
-              'decoder item arithmetic is offset = {} ; length = {} -- not '
-              'the inverse of the encoder / the format'.format(offs, lens),
-              dec.loc)
-    # header
+                  shrs[0][1] == b2k and lens.terms == {shrs[0]: 1} and
+                  lens.const == ref.C_LENGTH_BIAS)
+    if offs is None or lens is None:
+        res.undecided(rule_id, dec.qual,
+                      'decoder: offset = (b1 - 0x3c) * 16 + (b2 & 15), '
+                      'length = (b2 >> 4) + 2',
+                      'block copy loop not recognised', dec.loc)
+    else:
+        res.check(dec_ok, rule_id, dec.qual,
+                  'decoder: offset = (b1 - 0x3c) * 16 + (b2 & 15), length = '
+                  '(b2 >> 4) + 2',
+                  'offset = {} ; length = {}'.format(offs, lens),
+                  'decoder item arithmetic is offset = {} ; length = {} -- '
+                  'not the inverse of the encoder / the format'.format(
+                      offs, lens), dec.loc)
+    # header: length from bytes 4,5 big endian; stream starts at offset 8
     hdr_ok = False
-    for s in walk_own(dec.node):
-        if isinstance(s, ast.Assign) and isinstance(s.targets[0], ast.Name) \
-                and s.targets[0].id == 'code_length':
-            hdr_ok = ast.unparse(s.value).replace(' ', '') == \
-                'codedata[4]<<8|codedata[5]'
-    in0 = [ev.eval_expr(mod, s.value) for s in dec.node.body
-           if isinstance(s, ast.Assign) and isinstance(s.targets[0], ast.Name)
-           and s.targets[0].id == 'in_i']
-    res.check(hdr_ok and in0 == [ref.C_HEADER_LEN], rule_id, dec.qual,
+    in0 = None
+    envs = [p.env for p in pre if p.end == 'fall']
+    if envs:
+        cl = envs[0].get('code_length')
+        if cl is not None:
+            hdr_ok = u(cl).replace(' ', '').replace('(', '').replace(
+                ')', '') == 'codedata[4]<<8|codedata[5]'
+        i0 = envs[0].get(in_i)
+        in0 = i0.value if isinstance(i0, ast.Constant) else None
+    res.check(hdr_ok and in0 == ref.C_HEADER_LEN, rule_id, dec.qual,
               'decoder: length = bytes 4,5 big endian, stream from offset 8',
               '', 'header decoding changed (length expr ok: {}, stream '
               'offset {})'.format(hdr_ok, in0), dec.loc)
@@ -294,6 +515,16 @@ def rule_wellformed(ctx, res):
                 consts[st.targets[0].id] = v
     mbl = consts.get('max_block_len')
     mhl = consts.get('max_hist_len')
+    names_here = {x.id for x in walk_own(f.node) if isinstance(x, ast.Name)}
+    if not {'max_block_len', 'max_hist_len', 'best_len', 'best_i'} <= \
+            names_here:
+        # the search routine was rewritten: its bounds are no longer
+        # readable from the statement forms this rule knows
+        res.undecided('R-C05-wellformed', q, 'search routine',
+                      'the block search is written in a form outside the '
+                      'model (expected the max_block_len / max_hist_len / '
+                      'best_len / best_i search)', f.loc)
+        return
     res.check(mbl == ref.C_MAX_LEN, 'R-C05-wellformed', q,
               'max block length == 17', '',
               'max_block_len is {}: the length nibble overflows / the '
